@@ -5,14 +5,14 @@ import "strings"
 // Policy is the documented accept / store / reject-origin rule set
 // (doc/config.md, SMTP section; property C05).
 type Policy struct {
-	DefaultAccept bool
-	AcceptDomains []string
-	RejectDomains []string
-	DefaultStore  bool
-	StoreDomains  []string
+	DefaultAccept  bool
+	AcceptDomains  []string
+	RejectDomains  []string
+	DefaultStore   bool
+	StoreDomains   []string
 	DiscardDomains []string
-	RejectOrigin  []string // patterns with * and ?
-	MaxRecipients int
+	RejectOrigin   []string // patterns with * and ?
+	MaxRecipients  int
 }
 
 func inList(l []string, d string) bool {
